@@ -1,7 +1,7 @@
 From Coq Require Import List NArith ZArith Bool.
 From SK Require Import lib.LGraph lib.Mono.
 From SK Require model.C06_Model model.C11_Model.
-From SK Require Import model.C03_Model model.C05_Model proof.C05_Proof proof.C05_Glue proof.C05_Pipe proof.C05_Prep proof.C05_Comp proof.C05_Main proof.C05_Order proof.C05_Sub proof.C05_Set proof.C05_Result proof.C05_AllStrat proof.C05_PrepOrder proof.C05_Final proof.C05_Default proof.C05_Rewrite proof.C05_Capstone proof.C05_Refuted proof.C05_Cap proof.C05_AnyCap proof.C05_Partial proof.C05_PartialOrder proof.C05_PartialCap proof.C05_Prefilter proof.C05_PrefilterOrder proof.C05_Thms.
+From SK Require Import model.C03_Model model.C05_Model proof.C05_Proof proof.C05_Glue proof.C05_Pipe proof.C05_Prep proof.C05_Comp proof.C05_Main proof.C05_Order proof.C05_Sub proof.C05_Set proof.C05_Result proof.C05_AllStrat proof.C05_PrepOrder proof.C05_Final proof.C05_Default proof.C05_Rewrite proof.C05_Capstone proof.C05_Refuted proof.C05_Cap proof.C05_AnyCap proof.C05_Partial proof.C05_PartialOrder proof.C05_PartialCap proof.C05_Prefilter proof.C05_PrefilterOrder proof.C05_Enum proof.C05_Thms.
 From SK Require Import lib.C06_Spec proof.C06_Comp.
 From SK Require proof.C11_Dedup.
 From Coq Require Import Permutation.
@@ -13,6 +13,10 @@ Import ListNotations.
     Sections 1-5c are literal equalities of lists / list graphs (renumbering that keeps insertion order); sections 2', 3',
     6 and 7 are about graphs as FUNCTIONS and matches as SETS of pairs (any insertion order).  The vocabulary of the
     latter is written out in [C05_vocabulary].
+    VF2 IS INSTANTIATED: [matches] and [rule_auts] call the verified enumerator of lib/Mono.v (node-list order) where the Python
+    code calls networkx's VF2 (its own order, same matches by the oracle contract; counts, raw-match multisets and glued
+    multisets are compared on every case).  Which representative the pruning keeps depends on that order; section 24 proves
+    that the result set does not.
     THE EMBEDDING CAP.  Every definition of the model takes the effective cap of the search engine as a parameter
     ([TH : Thr], [thr_val]; SynReactor(embed_threshold = k) -> find_subgraph_mappings(threshold = k); the default 5000 is
     [thr_of None]), so every theorem below that starts with [forall (TH : Thr)] holds for EVERY cap, the default one and
@@ -90,13 +94,18 @@ Theorem C05_strategy_dispatch :
 Proof. exact @thm_strategy_dispatch. Qed.
 Print Assumptions C05_strategy_dispatch.
 
-(** 4. Repetition: the modelled pipeline is a function of its inputs (no hidden state). *)
-Theorem C05_repeat :
+(** 4. Repetition.  NOT A COVERAGE CLAIM: the statement below is congruence — it holds for every Gallina function — and only
+    records that the modelled pipeline has no hidden state BY CONSTRUCTION.  The clause "unchanged when the call is repeated"
+    of the property is about the state the IMPLEMENTATION has: it is TESTED (oracle clauses `repeat` and `invariant-sequence`:
+    second reads of every lazily computed attribute, several reactors on one template object, histories in both orders in a
+    fresh interpreter), and the reactor's lazy caches are modelled as a state machine and proved coherent by C03
+    (model/C03_Reactor.v, C03_reads_stable / C03_reads_after_crash), not here. *)
+Theorem C05_repeat_trivial :
   forall (TH : Thr),
   forall inv imp ex s (h h' : hostg) (t t' : its),
     h = h' -> t = t' -> pipeline inv imp ex s h t = pipeline inv imp ex s h' t'.
 Proof. exact @thm_repeat. Qed.
-Print Assumptions C05_repeat.
+Print Assumptions C05_repeat_trivial.
 
 (** 5a. The symmetry pruning is equivariant, returns a sub-list of the raw matches in their order, and loses no class:
     every raw match is a kept match, or has the same pairs as one, or is a kept match moved by one of the listed
@@ -667,3 +676,37 @@ Theorem C05_result_set_invariant_exhaustive_any_options_checked :
     (forall T', In T' (glued_of_pf pref 0%N host p) -> exists T, In T (glued_of_pf pref 0%N host0 p0) /\ obs_eq (relabel pi T) T').
 Proof. exact thm_result_set_invariant_exhaustive_any_options_checked. Qed.
 Print Assumptions C05_result_set_invariant_exhaustive_any_options_checked.
+
+(** 24. The result set does not depend on the ENUMERATION ORDER of the matcher (the model's enumerator lists matches in node-list
+    order, VF2 in its own, and writes each match as a dict with its own item order; the pruning keeps the FIRST match of
+    every class).  For any two listings of the same matches — any order of the list, any order of the pairs inside a match,
+    repetitions allowed — the graphs glued from the KEPT matches correspond one to one up to [obs_eq] (first two clauses:
+    [glue1], the general statement).  Third clause: the pipeline's glued graphs are exactly these (pattern without explicit
+    X-H bonds).  Fourth: for a writing that satisfies [side_okb], any other listing of its exhaustive raw matches — VF2's —
+    gives the same result set, both inclusions. *)
+Theorem C05_result_set_independent_of_enumeration :
+  (forall host rc m, glue1 host rc m = match glue host rc m with Some T => [T] | None => [] end) /\
+  (forall (host : hostg) (rc : its) (raw raw' : list mapping),
+     NoDup (node_ids rc) -> simple_edgesb (gedges rc) = true ->
+     (forall a b x, In (a, b, x) (gedges rc) -> In a (node_ids rc) /\ In b (node_ids rc)) ->
+     (forall m, In m raw -> NoDup (map fst m) /\ NoDup (map snd m) /\
+        forall q h, In (q, h) m -> (exists pn, label rc q = Some pn) /\ (exists hn, label host h = Some hn)) ->
+     (forall m, In m raw' -> NoDup (map fst m) /\ NoDup (map snd m) /\
+        forall q h, In (q, h) m -> (exists pn, label rc q = Some pn) /\ (exists hn, label host h = Some hn)) ->
+     (forall m, In m raw -> exists m', In m' raw' /\ forall ph, In ph m <-> In ph m') ->
+     (forall m', In m' raw' -> exists m, In m raw /\ forall ph, In ph m' <-> In ph m) ->
+     forall T, In T (flat_map (glue1 host rc) (prune rc raw)) ->
+       exists T', In T' (flat_map (glue1 host rc) (prune rc raw')) /\ obs_eq T T') /\
+  (forall (TH : Thr) strat host p, p_flag p = false ->
+     glued_of strat host p = flat_map (glue1 host (p_rc p)) (prune (p_rc p) (raw_of strat host p))) /\
+  (forall (TH : Thr) (host : hostg) (p : prepared) (raw' : list mapping),
+     side_okb host p = true ->
+     (forall m, In m (raw_of 0%N host p) -> exists m', In m' raw' /\ forall ph, In ph m <-> In ph m') ->
+     (forall m', In m' raw' -> exists m, In m (raw_of 0%N host p) /\ forall ph, In ph m' <-> In ph m) ->
+     (forall m, In m raw' -> NoDup (map fst m) /\ NoDup (map snd m)) ->
+     (forall T, In T (glued_of 0%N host p) ->
+        exists T', In T' (flat_map (glue1 host (p_rc p)) (prune (p_rc p) raw')) /\ obs_eq T T') /\
+     (forall T', In T' (flat_map (glue1 host (p_rc p)) (prune (p_rc p) raw')) ->
+        exists T, In T (glued_of 0%N host p) /\ obs_eq T' T)).
+Proof. exact thm_result_set_independent_of_enumeration. Qed.
+Print Assumptions C05_result_set_independent_of_enumeration.
